@@ -237,6 +237,7 @@ type failure struct {
 	symptom string
 	what    string
 	witness map[string]interface{}
+	tclass  string // overrides the group's type class in the fingerprint (numeric probes)
 }
 
 // detail is off while the bulk of the evaluations run: witnesses are only rendered for the
@@ -280,11 +281,11 @@ func roundtrip(s *spec, p reflect.Value, byValue bool, r *core.Rand) *failure {
 	w := map[string]interface{}{"type": fmt.Sprintf("%T", in), "value": show(p.Elem().Interface())}
 	if pn != nil {
 		w["panic"], w["where"] = pn.msg, pn.where
-		return &failure{"marshal-panic:" + pn.class, "Marshal panicked: " + pn.msg + " at " + pn.where, w}
+		return &failure{"marshal-panic:" + pn.class, "Marshal panicked: " + pn.msg + " at " + pn.where, w, ""}
 	}
 	if err != nil {
 		w["error"] = err.Error()
-		return &failure{"marshal-error", "Marshal refused a value of the supported domain: " + err.Error(), w}
+		return &failure{"marshal-error", "Marshal refused a value of the supported domain: " + err.Error(), w, ""}
 	}
 	data := append([]byte(nil), enc...) // Marshal may alias the value (plain codec, []byte)
 	keep := append([]byte(nil), data...)
@@ -296,18 +297,18 @@ func roundtrip(s *spec, p reflect.Value, byValue bool, r *core.Rand) *failure {
 	err, pn = safely(func() error { return s.cd.Unmarshal(data, d.arg) })
 	if pn != nil {
 		w["panic"], w["where"] = pn.msg, pn.where
-		return &failure{"panic:" + pn.class, "Unmarshal of a valid encoding panicked: " + pn.msg + " at " + pn.where, w}
+		return &failure{"panic:" + pn.class, "Unmarshal of a valid encoding panicked: " + pn.msg + " at " + pn.where, w, ""}
 	}
 	if c := d.check(); c != "" {
 		w["canary"] = c
-		return &failure{"canary", "Unmarshal wrote outside the destination: " + c, w}
+		return &failure{"canary", "Unmarshal wrote outside the destination: " + c, w, ""}
 	}
 	if !bytes.Equal(data, keep) {
-		return &failure{"input-modified", "Unmarshal changed its input buffer", w}
+		return &failure{"input-modified", "Unmarshal changed its input buffer", w, ""}
 	}
 	if err != nil {
 		w["error"] = err.Error()
-		return &failure{"unmarshal-error", "Unmarshal refused the encoding of a supported value: " + err.Error(), w}
+		return &failure{"unmarshal-error", "Unmarshal refused the encoding of a supported value: " + err.Error(), w, ""}
 	}
 	got := d.val()
 	ok, path := deq(p.Elem(), got, s.cfg.eq)
@@ -323,9 +324,9 @@ func roundtrip(s *spec, p reflect.Value, byValue bool, r *core.Rand) *failure {
 	w["decoded"] = show(got.Interface())
 	w["first_difference_at"] = path
 	if ok, _ := deq(clone(p.Elem(), true), got, s.cfg.eq); ok {
-		return &failure{"order-reversed", fmt.Sprintf("decoded value has its slices/arrays back to front (first difference at %s)", path), w}
+		return &failure{"order-reversed", fmt.Sprintf("decoded value has its slices/arrays back to front (first difference at %s)", path), w, ""}
 	}
-	return &failure{"mismatch", fmt.Sprintf("decoded value differs at %s", path), w}
+	return &failure{"mismatch", fmt.Sprintf("decoded value differs at %s", path), w, ""}
 }
 
 // decodeGarbage decodes data into destination number di of the spec (odd destinations) or a fresh holder.
@@ -345,14 +346,14 @@ func decodeGarbage(s *spec, data []byte, r *core.Rand, di int) *failure {
 	_, pn := safely(func() error { return s.cd.Unmarshal(data, d.arg) })
 	if pn != nil {
 		w["panic"], w["where"] = pn.msg, pn.where
-		return &failure{"panic:" + pn.class, fmt.Sprintf("Unmarshal(%q, %s) panicked: %s at %s", trunc(keep, 80), w["dest_type"], pn.msg, pn.where), w}
+		return &failure{"panic:" + pn.class, fmt.Sprintf("Unmarshal(%q, %s) panicked: %s at %s", trunc(keep, 80), w["dest_type"], pn.msg, pn.where), w, ""}
 	}
 	if c := d.check(); c != "" {
 		w["canary"] = c
-		return &failure{"canary", "Unmarshal wrote outside the destination: " + c, w}
+		return &failure{"canary", "Unmarshal wrote outside the destination: " + c, w, ""}
 	}
 	if !bytes.Equal(data, keep) {
-		return &failure{"input-modified", "Unmarshal changed its input buffer", w}
+		return &failure{"input-modified", "Unmarshal changed its input buffer", w, ""}
 	}
 	return nil
 }
@@ -383,7 +384,7 @@ func plan(specs []*spec, tier string) []*group {
 		if !s.garbOnly {
 			cnt[s.codec+"/roundtrip"]++
 		}
-		if !s.oddDest {
+		if !s.oddDest && !s.numeric {
 			cnt[s.codec+"/garbage"]++
 		}
 	}
@@ -400,6 +401,13 @@ func plan(specs []*spec, tier string) []*group {
 				}
 				if s.oddDest {
 					n = n/4 + 1
+				}
+				if s.numeric {
+					// the whole probe table, then random digit strings
+					n = len(numTable(s.codec)) + 600
+					if tier == "thorough" {
+						n = len(numTable(s.codec)) + 60000
+					}
 				}
 				out = append(out, &group{name: c + "/" + mode + "/" + s.tclass, mode: mode, s: s, n: n})
 			}
@@ -508,6 +516,29 @@ func (e *engine) evalOne(g *group, k int) bool {
 		}
 		return true
 	}
+	if s.numeric {
+		pr, f := numericEval(s, k, r)
+		core.Distinct("nontrivial", s.codec+"/num-"+pr.ctx.name+"-"+pr.kind.String()+"/"+pr.label)
+		core.Add("numeric_probes", 1)
+		if k == 3 && s.codec == "form" {
+			core.Sample(map[string]interface{}{"group": g.name, "context": pr.ctx.name, "kind": pr.kind.String(), "text_class": pr.label, "text": pr.text})
+		}
+		if f != nil {
+			again := func() *failure { return numericProbe(s, pr) }
+			e.report(g, k, pr.label, f, again, func() *failure {
+				// the canonical witness: the first text of the boundary table with the same symptom
+				for _, t := range numTexts(pr.kind) {
+					q := pr
+					q.label, q.text = t.label, t.text
+					if ff := numericProbe(s, q); ff != nil && ff.symptom == f.symptom {
+						return ff
+					}
+				}
+				return numericProbe(s, pr)
+			})
+		}
+		return true
+	}
 	gclass := gclasses[k%len(gclasses)]
 	data := e.g.make(gclass, s, r)
 	if s.codec == "thrift" && thriftSlow(data, 200000) {
@@ -562,7 +593,11 @@ func (e *engine) evalOne(g *group, k int) bool {
 }
 
 func (e *engine) report(g *group, k int, vclass string, f *failure, again func() *failure, minimise func() *failure) {
-	fp := fmt.Sprintf("C11/%s/%s/%s/%s", g.s.codec, g.mode, g.s.tclass, f.symptom)
+	tclass := g.s.tclass
+	if f.tclass != "" {
+		tclass = f.tclass
+	}
+	fp := fmt.Sprintf("C11/%s/%s/%s/%s", g.s.codec, g.mode, tclass, f.symptom)
 	e.failed++
 	core.Add("failures_total", 1)
 	core.Add("failures "+fp, 1)
@@ -577,11 +612,11 @@ func (e *engine) report(g *group, k int, vclass string, f *failure, again func()
 	}
 	m := minimise()
 	id := fmt.Sprintf("b%d-%s-k%d", *batch, g.name, k)
-	desc := map[string]interface{}{"class": g.name, "codec": g.s.codec, "mode": g.mode, "tclass": g.s.tclass,
+	desc := map[string]interface{}{"class": g.name, "codec": g.s.codec, "mode": g.mode, "tclass": tclass,
 		"vclass": vclass, "group": g.name, "k": k, "seed": *seed}
 	w := map[string]interface{}{"as_generated": f.witness, "minimal": m.witness}
 	core.Begin(id, desc)
-	core.Result(core.R{ID: id, Verdict: core.Violated, FP: fp, What: fmt.Sprintf("%s %s (%s): %s", g.s.codec, g.mode, g.s.tclass, m.what),
+	core.Result(core.R{ID: id, Verdict: core.Violated, FP: fp, What: fmt.Sprintf("%s %s (%s): %s", g.s.codec, g.mode, tclass, m.what),
 		Witness: w, Sig: g.name + "/" + vclass, Desc: desc})
 }
 
